@@ -533,10 +533,23 @@ func TestC20_P_OldStyleRepeatable(t *testing.T) {
 			t.Fatalf("C20 [%s]: %v", fc.Desc, err)
 		}
 		shared := fresh()
+		probed := false
 		for run := 1; run <= 4; run++ {
 			n := shared
 			if run == 1 {
 				n = fresh()
+			}
+			if run >= 2 && rapid.Bool().Draw(t, "probeBetweenReads") {
+				// another reader of the shared node asks for the end (and perhaps reads a little) between two full reads: what it
+				// learned about the file may not change the order in which the next full read asks for the blocks
+				if rs, e := n.(datamodel.LargeBytesNode).AsLargeBytes(); e == nil {
+					_, _ = rs.Seek(0, io.SeekEnd)
+					if rapid.Bool().Draw(t, "probeReads") {
+						_, _ = rs.Seek(-int64(rapid.IntRange(0, len(fc.Data)).Draw(t, "probeBack")), io.SeekEnd)
+						_, _ = rs.Read(make([]byte, 3))
+					}
+				}
+				probed = true
 			}
 			got, err := full(n, run%2)
 			if err != nil {
@@ -547,7 +560,7 @@ func TestC20_P_OldStyleRepeatable(t *testing.T) {
 			}
 		}
 		old := strings.Contains(fc.Writer, "bs=false")
-		ev.Case(fc.Writer, old, fmt.Sprintf("noBlockSizes:%v", old))
+		ev.Case(fmt.Sprintf("%s probed=%v", fc.Writer, probed), old, fmt.Sprintf("noBlockSizes:%v", old), fmt.Sprintf("end-probed-between-reads:%v", probed))
 		ev.Sample(map[string]any{"file": fc.Desc, "blocks": len(first)})
 	})
 }
